@@ -19,7 +19,10 @@ REPO = os.environ.get("VERIF_REPO", "/repo")
 CACHE = os.path.join(VERIF, ".cache")
 SPEC = os.path.join(VERIF, "spec")
 DRIVERS = os.path.join(VERIF, "drivers")
-EVIDENCE = os.path.join(VERIF, "evidence")
+# evidence/<id>.json describes runs against /repo itself; a developer run against a scratch
+# worktree (VERIF_REPO set by harness/seedtest.py, seed_regress.py) must never rewrite it
+EVIDENCE = (os.path.join(VERIF, "evidence") if os.path.realpath(REPO) == "/repo"
+            else os.path.join(tempfile.gettempdir(), "verif-scratch-evidence-%d" % os.getpid()))
 REPLAY = os.path.join(VERIF, "replay")
 NCPU = min(16, os.cpu_count() or 4)
 GUARD = "OVNI_VERIF"
